@@ -235,12 +235,12 @@ const STUB: u16 = 0xBE80;
 
 fn port_in(e: &mut Emu, port: u16) -> Result<u8, String> {
     mach::set_regs(e, &RegFile { pc: STUB, sp: 0xBF00, bc: port, ..Default::default() });
-    mach::single_step(e)?;
+    mach::step_over(e, 2)?;
     Ok((mach::get_regs(e).af >> 8) as u8)
 }
 fn port_out(e: &mut Emu, port: u16, v: u8) -> Result<(), String> {
     mach::set_regs(e, &RegFile { pc: STUB + 2, sp: 0xBF00, bc: port, af: (v as u16) << 8, ..Default::default() });
-    mach::single_step(e)
+    mach::step_over(e, 2)
 }
 
 pub fn load(e: &mut Emu, enc: Enc, file: Vec<u8>) -> Result<(), String> {
@@ -337,6 +337,7 @@ pub fn check(c: &Case, rec: &mut Rec) -> Result<(), String> {
             e.verif_set_frame_clocks(t0 as usize);
         }
         m.bus.t = t0;
+        let tb = crate::e2::TimeBase::new(&e, machine);
         e.verif_cpu().regs.clear_q();
         let v = ((st.regs.i as u16) << 8) | 0xFF;
         let skip = st.regs.im % 3 == 2 && (v < 0x4000 || v.wrapping_add(1) < 0x4000);
@@ -344,8 +345,7 @@ pub fn check(c: &Case, rec: &mut Rec) -> Result<(), String> {
             if m.cpu.pc < 0x4000 {
                 break;
             }
-            mach::single_step(&mut e)?;
-            m.step_group();
+            m.lockstep(&mut e, &tb)?;
             let g = mach::get_regs(&mut e);
             let w = crate::e1::get_ref_regs(&m.cpu);
             if g != w {
@@ -489,6 +489,30 @@ pub fn check_devices(c: &DevCase, rec: &mut Rec) -> Result<(), String> {
         }
     }
     rec.class("ay-readback");
+    // the display: the bank the file selects, then (128K) the other one after flipping the
+    // screen-select bit without touching memory — every RAM page "as seen by the display"
+    {
+        let vb = if machine == Machine::K48 { 0 } else if st.latch & 8 != 0 { 7 } else { 5 };
+        let vis: Vec<u8> = e.verif_ram_page(vb)[..6912].to_vec();
+        mach::set_regs(&mut e, &RegFile { pc: st.regs.pc, sp: 0xBF00, ..Default::default() });
+        mach::run_frames(&mut e, 2)?;
+        let px = e.screen_buffer().px.clone();
+        if px[..] != c08::decode(&vis, false)[..] && px[..] != c08::decode(&vis, true)[..] {
+            return Err(format!("{}: the canvas does not show the file's screen (bank {})", tag, vb));
+        }
+        if machine == Machine::K128 {
+            let (latch, _, _) = e.verif_paging();
+            e.verif_set_paging((latch ^ 8) & !0x20);
+            let ob = if vb == 7 { 5 } else { 7 };
+            let other: Vec<u8> = e.verif_ram_page(ob)[..6912].to_vec();
+            mach::run_frames(&mut e, 2)?;
+            let px = &e.screen_buffer().px;
+            if px[..] != c08::decode(&other, false)[..] && px[..] != c08::decode(&other, true)[..] {
+                return Err(format!("{}: after flipping the screen-select bit the canvas does not show the file's bank {} (its content was loaded but the display shows something else)", tag, ob));
+            }
+            rec.class("display-both-banks");
+        }
+    }
     // mouse presence
     if let Some(present) = st.mouse {
         e.send_mouse_button(KempstonMouseButton::Left, true);
